@@ -210,6 +210,11 @@ func judge(run *ev.Run, exp *expect, d delivery, body string) []string {
 				run.Count("params", k+":intact")
 				return
 			}
+			if *want == "" && listed {
+				violate("param-not-produced:"+k, "a response parameter arrives although the provider produced none for the request being answered (the value of another request?)",
+					fmt.Sprintf("%s: nothing produced for this request, client decodes %q", k, trunc(got[0], 400)))
+				return
+			}
 			if !strictValue(*want) {
 				grey("unsafe-value-changed:" + k)
 				return
